@@ -136,7 +136,7 @@ int main() {
           RUNAWAY(cnt) if (!f) r += ' '; f = false;
           std::vector<unsigned> val((*it).begin(), (*it).begin() + k); r += ulist(val);
         }
-      } else if (w == "OSP") {
+      } else if (w == "OSP" || w == "OSPI") {   // OSPI: compared in the order of enumeration
         unsigned n = std::stoul(a[0]), k = std::stoul(a[1]);
         bool f = true; long cnt = 0;
         for (Ordered_set_partition_iterator it(n, k), end; it != end; ++it) {
